@@ -31,7 +31,8 @@ class Obj:
 
 
 PURE_MATH = {"math.isclose", "math.floor", "math.ceil", "math.fabs", "math.hypot", "math.copysign", "math.trunc"}
-EXTRA_GLOBALS = {}     # module-level names of the analysed module bound to stand-ins for one abstract run
+EXTRA_GLOBALS = {}
+SENTINELS = {}          # module-level `NAME = object()`: one stand-in per name     # module-level names of the analysed module bound to stand-ins for one abstract run
 
 
 class StandIn:
@@ -233,6 +234,16 @@ class Runner:
                             genv[tg.id] = Ev(dict(genv), attr_hook=self._attr).ev(st.value)
                         except Exception:      # noqa: BLE001 -- not a constant the interpreter can see
                             pass
+        # module-level functions used as values (`sorted(xs, key=_first_item)`), and sentinels (`_NONE = object()`)
+        for st in (modast.body if modast is not None else []):
+            if isinstance(st, ast.FunctionDef) and st.name not in genv:
+                target = self.ctx.model.funcs.get(f"{fn.mod}.{st.name}")
+                if target is not None:
+                    genv[st.name] = (lambda *aa, _t=target, **kk: self.call_fn(_t, list(aa), kk))
+            elif isinstance(st, ast.Assign) and len(st.targets) == 1 and isinstance(st.targets[0], ast.Name) \
+                    and st.targets[0].id not in genv and isinstance(st.value, ast.Call) \
+                    and isinstance(st.value.func, ast.Name) and st.value.func.id == "object" and not st.value.args:
+                genv[st.targets[0].id] = SENTINELS.setdefault((fn.mod, st.targets[0].id), Obj("sentinel:" + st.targets[0].id))
         env = {}
         defaults = list(a.defaults)
         for i, n in enumerate(names):
